@@ -171,7 +171,7 @@ struct Script {
     run: Run,
     rewrite: Option<Class>,
     local: Local,
-    pre: Vec<u64>,
+    pre: Vec<(u64, u64)>,
 }
 
 fn dec_script(case: &Sx) -> Script {
@@ -241,7 +241,7 @@ fn dec_script(case: &Sx) -> Script {
         run,
         rewrite: dec_oclass(case.arg(7)),
         local,
-        pre: case.arg(9).list().iter().map(|p| p.u64()).collect(),
+        pre: case.arg(9).list().iter().map(dec_pre).collect(),
     }
 }
 
@@ -249,15 +249,44 @@ fn opath(dir: &Path, p: u64) -> PathBuf {
     dir.join(format!("o{}", p))
 }
 
-fn payload(p: u64) -> Vec<u8> {
-    // large enough that a truncated zlib stream still yields a proper prefix
-    let mut v = Vec::new();
-    let mut x: u64 = 0x9e3779b97f4a7c15 ^ p;
-    for i in 0..400u64 {
+/// What the build server returns for output `p` of source variant `v`; the variants differ in length
+/// (an edit that shortens / lengthens the object).
+fn payload_v(p: u64, v: u64) -> Vec<u8> {
+    let n = match v {
+        0 => 400u64,
+        1 => 150,
+        _ => 600,
+    };
+    let mut out = Vec::new();
+    let mut x: u64 = 0x9e3779b97f4a7c15 ^ p ^ (v << 32);
+    for i in 0..n {
         x = x.wrapping_mul(6364136223846793005).wrapping_add(1442695040888963407);
-        v.extend_from_slice(format!("remote-{}-{}-{:x};", p, i, x >> 40).as_bytes());
+        out.extend_from_slice(format!("remote-{}-{}-{}-{:x};", p, v, i, x >> 40).as_bytes());
     }
-    v
+    out
+}
+
+fn payload(p: u64) -> Vec<u8> {
+    payload_v(p, 0)
+}
+
+/// A file that is at an output path before the request: kind 0 shorter than, 1 as long as, 2 longer than
+/// anything the build server or the local compiler writes there.
+fn pre_bytes(p: u64, kind: u64) -> Vec<u8> {
+    match kind {
+        0 => b"pre".to_vec(),
+        1 => vec![b'P'; payload_v(p, 0).len()],
+        _ => vec![b'Q'; 3 * payload_v(p, 2).len()],
+    }
+}
+
+/// PRE entry: P or ( P KIND )
+fn dec_pre(x: &Sx) -> (u64, u64) {
+    if x.list().len() == 2 {
+        (x.arg(0).u64(), x.arg(1).u64())
+    } else {
+        (x.u64(), 0)
+    }
 }
 
 const REMOTE_STDOUT: &[u8] = b"remote stdout";
@@ -270,6 +299,11 @@ const LOCAL_STDERR: &[u8] = b"local stderr";
 struct ScriptClient {
     s: Script,
     dir: PathBuf,
+    /// source variant (selects the payload) and what the inputs archive of the job contained (leg request)
+    variant: u64,
+    sent: Mutex<Option<Vec<u8>>>,
+    /// the real client toolchain cache and the size of the packaged toolchain (leg toolchain)
+    toolchains: Option<(Arc<dist::ClientToolchains>, usize)>,
     /// when set, do_run_job answers for exactly the requested output paths (leg request)
     requested_outputs: bool,
 }
@@ -308,8 +342,16 @@ impl dist::Client for ScriptClient {
     async fn do_submit_toolchain(
         &self,
         _: JobAlloc,
-        _: Toolchain,
+        tc: Toolchain,
     ) -> anyhow::Result<SubmitToolchainResult> {
+        if let Some((tcs, _)) = &self.toolchains {
+            // as dist::http::Client does
+            return match tcs.get_toolchain(&tc) {
+                Ok(Some(_file)) => Ok(SubmitToolchainResult::Success),
+                Ok(None) => Err(anyhow::anyhow!("couldn't find toolchain locally")),
+                Err(e) => Err(e),
+            };
+        }
         match self.s.submit {
             Submit::Err(c) => Err(mkerr(c, "submit toolchain")),
             Submit::JobNotFound => Ok(SubmitToolchainResult::JobNotFound),
@@ -322,8 +364,14 @@ impl dist::Client for ScriptClient {
         _: JobAlloc,
         _: dist::CompileCommand,
         requested: Vec<String>,
-        _: Box<dyn pkg::InputsPackager>,
+        inputs_packager: Box<dyn pkg::InputsPackager>,
     ) -> anyhow::Result<(RunJobResult, PathTransformer)> {
+        if self.requested_outputs {
+            // what a build server would unpack: the input file inside the inputs archive
+            let mut tar = vec![];
+            let _ = inputs_packager.write_inputs(&mut tar)?;
+            *self.sent.lock().unwrap() = Some(tar_member(&tar, "foo.c").unwrap_or_else(|| b"<no foo.c>".to_vec()));
+        }
         match &self.s.run {
             Run::Err(c) => Err(mkerr(*c, "run job")),
             Run::JobNotFound => Ok((RunJobResult::JobNotFound, PathTransformer::new())),
@@ -338,7 +386,7 @@ impl dist::Client for ScriptClient {
                     } else {
                         opath(&self.dir, *p)
                     };
-                    let data = payload(*p);
+                    let data = payload_v(*p, self.variant);
                     let good = OutputData::verif_try_from_reader(&data[..]).unwrap();
                     let od = match w {
                         W::Ok => good,
@@ -379,10 +427,16 @@ impl dist::Client for ScriptClient {
     }
     async fn put_toolchain(
         &self,
-        _: PathBuf,
-        _: String,
+        compiler_path: PathBuf,
+        weak_key: String,
         _: Box<dyn pkg::ToolchainPackager>,
     ) -> anyhow::Result<(Toolchain, Option<(String, PathBuf)>)> {
+        if let Some((tcs, size)) = &self.toolchains {
+            // the real ClientToolchains::put_toolchain with a packager that writes `size` bytes
+            return tcs
+                .verif_put_toolchain(&compiler_path, &weak_key, vec![b'T'; *size], false)
+                .map(|tc| (tc, None));
+        }
         match self.s.put {
             // wrapped in a context, as errors from the real client usually are
             Some(c) => Err(mkerr(c, "put toolchain").context("while putting the toolchain")),
@@ -401,6 +455,39 @@ impl dist::Client for ScriptClient {
     fn get_custom_toolchain(&self, _exe: &Path) -> Option<PathBuf> {
         None
     }
+}
+
+/// The data of the member whose name ends with `suffix` in a (ustar / GNU long name) tar stream.
+fn tar_member(tar: &[u8], suffix: &str) -> Option<Vec<u8>> {
+    let mut pos = 0;
+    let mut long_name: Option<String> = None;
+    while pos + 512 <= tar.len() {
+        let h = &tar[pos..pos + 512];
+        if h.iter().all(|b| *b == 0) {
+            break;
+        }
+        let cstr = |b: &[u8]| String::from_utf8_lossy(&b[..b.iter().position(|c| *c == 0).unwrap_or(b.len())]).into_owned();
+        let size = usize::from_str_radix(cstr(&h[124..136]).trim(), 8).unwrap_or(0);
+        let typeflag = h[156];
+        let data = &tar[pos + 512..(pos + 512 + size).min(tar.len())];
+        let mut name = cstr(&h[0..100]);
+        let prefix = cstr(&h[345..500]);
+        if !prefix.is_empty() && &h[257..262] == b"ustar" {
+            name = format!("{}/{}", prefix, name);
+        }
+        if typeflag == b'L' {
+            long_name = Some(cstr(data));
+        } else {
+            if let Some(n) = long_name.take() {
+                name = n;
+            }
+            if name.ends_with(suffix) {
+                return Some(data.to_vec());
+            }
+        }
+        pos += 512 + size.div_ceil(512) * 512;
+    }
+    None
 }
 
 // ------------------------------------------------------------------ scripted Compilation
@@ -499,11 +586,11 @@ fn listing(dir: &Path, want: &dyn Fn(&str) -> Option<u64>) -> Sx {
             "other"
         } else {
             let data = std::fs::read(e.path()).unwrap();
-            if data == b"pre" {
+            if (0..3).any(|k| data == pre_bytes(p, k)) {
                 "pre"
             } else if data == b"local" {
                 "local"
-            } else if data == payload(p) {
+            } else if (0..3).any(|v| data == payload_v(p, v)) {
                 "remote"
             } else {
                 "partial"
@@ -615,8 +702,8 @@ fn run_fallback(case: &Sx) -> Sx {
     let td = tempfile::Builder::new().prefix("vh-c13-").tempdir_in("/dev/shm").unwrap();
     let dir = td.path().join("w");
     std::fs::create_dir_all(&dir).unwrap();
-    for p in &s.pre {
-        std::fs::write(opath(&dir, *p), b"pre").unwrap();
+    for (p, k) in &s.pre {
+        std::fs::write(opath(&dir, *p), pre_bytes(*p, *k)).unwrap();
     }
     // one runtime and one (unused by this leg) storage per harness process
     let (runtime, storage) = shared();
@@ -640,6 +727,9 @@ fn run_fallback(case: &Sx) -> Sx {
         s: s.clone(),
         dir: dir.clone(),
         requested_outputs: false,
+        variant: 0,
+        sent: Mutex::new(None),
+        toolchains: None,
     });
     let service = SccacheService::<Creator>::mock_with_dist_client(client.clone(), storage, pool);
     let compilation = Box::new(RawCompilation {
@@ -683,9 +773,10 @@ fn run_fallback(case: &Sx) -> Sx {
 }
 
 // ------------------------------------------------------------------ leg request
-// The same script through `get_cached_or_compile` with a real gcc `CCompilation` and a real disk cache.
-// case: as for leg fallback (GEN must be 1, PREP/REWRITE ok; paths: 0 = foo.o).
-// obs:  ( ( CLASS DT ST FS RAN SRC ) SECOND )   SECOND = () | ( CLASS2 ST FS )
+// A history of requests through `get_cached_or_compile` with a real gcc `CCompilation`, a real disk cache with
+// the preprocessor cache mode on or off, and the scripted client acting as scheduler + build server.
+// case: ( PP ( STEP ... ) )   STEP = the ten script fields (paths: 0 = foo.o), VARIANT, CLEAN
+// obs:  ( ( CLASS DT ST FS RAN SRC PPRUN SENT ) ... )
 
 fn fname(name: &str) -> Option<u64> {
     if name == "foo.o" {
@@ -695,16 +786,28 @@ fn fname(name: &str) -> Option<u64> {
     }
 }
 
+fn preprocessed(v: u64) -> Vec<u8> {
+    format!(
+        "# 1 \"foo.c\"\n# 1 \"<built-in>\"\n# 1 \"<command-line>\"\n# 1 \"foo.c\"\n# 1 \"foo.h\" 1\nint g(void);\n# 2 \"foo.c\" 2\nint f{v}(void) {{ return g() + {v}; }}\n",
+        v = v
+    )
+    .into_bytes()
+}
+
+fn age(path: &Path) {
+    // the sources are (much) older than the compilation
+    let t = filetime::FileTime::from_unix_time(1_500_000_000, 0);
+    filetime::set_file_mtime(path, t).unwrap();
+}
+
 fn run_request(case: &Sx) -> Sx {
-    let s = dec_script(case);
+    let pp = case.arg(0).as_bool();
     let td = tempfile::Builder::new().prefix("vh-c13r-").tempdir_in("/dev/shm").unwrap();
     let dir = td.path().join("w");
     std::fs::create_dir_all(&dir).unwrap();
     let rpath = |p: u64| if p == 0 { dir.join("foo.o") } else { opath(&dir, p) };
-    for p in &s.pre {
-        std::fs::write(rpath(*p), b"pre").unwrap();
-    }
-    std::fs::write(dir.join("foo.c"), b"int x;\n").unwrap();
+    std::fs::write(dir.join("foo.h"), b"int g(void);\n").unwrap();
+    age(&dir.join("foo.h"));
     let gcc = dir.join("gcc");
     std::fs::write(&gcc, b"#!/bin/sh\n").unwrap();
     {
@@ -721,7 +824,10 @@ fn run_request(case: &Sx) -> Sx {
         td.path().join("cache"),
         u64::MAX,
         &pool,
-        PreprocessorCacheModeConfig::default(),
+        PreprocessorCacheModeConfig {
+            use_preprocessor_cache_mode: pp,
+            ..Default::default()
+        },
         CacheMode::ReadWrite,
     ));
     let creator = new_creator();
@@ -747,37 +853,24 @@ fn run_request(case: &Sx) -> Sx {
         CompilerArguments::Ok(h) => h,
         _ => return Sx::sym("parse_arguments_failed"),
     };
-    let client: Arc<dyn dist::Client> = Arc::new(ScriptClient {
-        s: s.clone(),
-        dir: dir.clone(),
-        requested_outputs: true,
-    });
-    let dc = if s.dist { Some(client.clone()) } else { None };
-    let service =
-        SccacheService::<Creator>::mock_with_dist_client(client.clone(), storage.clone(), pool.clone());
 
     let mut obs = vec![];
-    let mut stored = false;
-    for round in 0..2 {
-        // the preprocessor
-        creator
-            .lock()
-            .unwrap()
-            .next_command_spawns(Ok(MockChild::new(exit_status(0), "preprocessor output", "")));
-        let ran = Arc::new(AtomicBool::new(false));
-        if round == 0 {
-            let files = match &s.local {
-                Local::Exit(_, ws) => ws.iter().map(|p| rpath(*p)).collect(),
-                Local::SpawnErr => vec![],
-            };
-            queue_local(&creator, &s, &dir, ran.clone(), files);
-        } else {
-            // second request: anything that reaches a compiler is recorded
-            let r2 = ran.clone();
-            creator.lock().unwrap().next_command_calls(move |_| {
-                r2.store(true, Ordering::SeqCst);
-                Err(anyhow::anyhow!("MOCK spawn failure"))
-            });
+    let mut cur_variant: Option<u64> = None;
+    for step in case.arg(1).list() {
+        let s = dec_script(step);
+        let variant = step.arg(10).u64();
+        let clean = step.arg(11).as_bool();
+        if cur_variant != Some(variant) {
+            // the edit
+            std::fs::write(
+                dir.join("foo.c"),
+                format!("#include \"foo.h\"\nint f{v}(void) {{ return g() + {v}; }}\n", v = variant),
+            )
+            .unwrap();
+            age(&dir.join("foo.c"));
+            cur_variant = Some(variant);
+        }
+        if clean {
             for e in std::fs::read_dir(&dir).unwrap().flatten() {
                 let n = e.file_name().to_string_lossy().into_owned();
                 if fname(&n).is_some() {
@@ -785,13 +878,60 @@ fn run_request(case: &Sx) -> Sx {
                 }
             }
         }
+        for (p, k) in &s.pre {
+            let _ = std::fs::remove_file(rpath(*p));
+            std::fs::write(rpath(*p), pre_bytes(*p, *k)).unwrap();
+        }
+        let client = Arc::new(ScriptClient {
+            s: s.clone(),
+            dir: dir.clone(),
+            requested_outputs: true,
+            variant,
+            sent: Mutex::new(None),
+            toolchains: None,
+        });
+        let dclient: Arc<dyn dist::Client> = client.clone();
+        let dc = if s.dist { Some(dclient.clone()) } else { None };
+        let service = SccacheService::<Creator>::mock_with_dist_client(
+            dclient.clone(),
+            storage.clone(),
+            pool.clone(),
+        );
+        // Two mock processes are available per request; each looks at its command line: `-E` is the
+        // preprocessor, anything else the compiler.
+        let ran = Arc::new(AtomicBool::new(false));
+        let pprun = Arc::new(AtomicBool::new(false));
+        let files: Vec<PathBuf> = match &s.local {
+            Local::Exit(_, ws) => ws.iter().map(|p| rpath(*p)).collect(),
+            Local::SpawnErr => vec![],
+        };
+        for _ in 0..2 {
+            let (ran, pprun, local, files) = (ran.clone(), pprun.clone(), s.local.clone(), files.clone());
+            creator.lock().unwrap().next_command_calls(move |args| {
+                if args.iter().any(|a| a == "-E") {
+                    pprun.store(true, Ordering::SeqCst);
+                    return Ok(MockChild::new(exit_status(0), preprocessed(variant), ""));
+                }
+                ran.store(true, Ordering::SeqCst);
+                match &local {
+                    Local::SpawnErr => Err(anyhow::anyhow!("MOCK spawn failure")),
+                    Local::Exit(raw, _) => {
+                        for f in &files {
+                            let _ = std::fs::remove_file(f);
+                            std::fs::write(f, b"local")?;
+                        }
+                        Ok(MockChild::new(exit_status(*raw), LOCAL_STDOUT, LOCAL_STDERR))
+                    }
+                }
+            });
+        }
         let h = hasher.clone();
         let res = catch(|| {
             runtime.block_on(async {
                 let r = h
                     .get_cached_or_compile(
                         &service,
-                        if round == 0 { dc.clone() } else { None },
+                        dc.clone(),
                         creator.clone(),
                         storage.clone(),
                         arguments.clone(),
@@ -816,10 +956,7 @@ fn run_request(case: &Sx) -> Sx {
                 let (k, dt) = match &cr {
                     CompileResult::Error => ("error", "none"),
                     CompileResult::CacheHit(_) => ("hit", "none"),
-                    CompileResult::CacheMiss(MissType::Normal, dt, _, _) => {
-                        stored = true;
-                        ("miss", dt_sym(dt))
-                    }
+                    CompileResult::CacheMiss(MissType::Normal, dt, _, _) => ("miss", dt_sym(dt)),
                     CompileResult::CacheMiss(_, dt, _, _) => ("miss_other", dt_sym(dt)),
                     CompileResult::NotCached(dt, _) => ("not_cached", dt_sym(dt)),
                     CompileResult::NotCacheable(dt, _) => ("not_cacheable", dt_sym(dt)),
@@ -834,6 +971,12 @@ fn run_request(case: &Sx) -> Sx {
         };
         // drop whatever mock commands were not consumed
         creator.lock().unwrap().children.clear();
+        let sent = match client.sent.lock().unwrap().take() {
+            None => "none",
+            Some(u) if u == preprocessed(variant) => "full",
+            Some(u) if u.is_empty() => "empty",
+            Some(_) => "other",
+        };
         obs.push(Sx::L(vec![
             Sx::sym(&class),
             Sx::sym(dt),
@@ -841,15 +984,137 @@ fn run_request(case: &Sx) -> Sx {
             listing(&dir, &fname),
             Sx::bool(ran.load(Ordering::SeqCst)),
             Sx::sym(src),
+            Sx::bool(pprun.load(Ordering::SeqCst)),
+            Sx::sym(sent),
         ]));
-        if !stored {
-            break;
-        }
-    }
-    if obs.len() == 1 {
-        obs.push(Sx::L(vec![]));
     }
     Sx::L(obs)
+}
+
+// ------------------------------------------------------------------ leg toolchain
+// The real `dist::ClientToolchains` (toolchain cache + weak map on disk) under a size limit, behind the
+// scripted client, over several requests and client restarts; requests go through `dist_or_local_compile`.
+// case: ( LIMIT SIZE ( OP ... ) )   OP = restart | ( request NEED LOCAL )
+// obs:  ( ( ( WEAK ARCH ) R ) ... )  WEAK = weak_map.json has an entry, ARCH = an archive is in the cache
+
+fn run_toolchain(case: &Sx) -> Sx {
+    let limit = case.arg(0).u64();
+    let size = case.arg(1).u64() as usize;
+    let td = tempfile::Builder::new().prefix("vh-c13t-").tempdir_in("/dev/shm").unwrap();
+    let dir = td.path().join("w");
+    let tcdir = td.path().join("toolchains");
+    std::fs::create_dir_all(&dir).unwrap();
+    let open = || Arc::new(dist::ClientToolchains::new(&tcdir, limit, &[]).unwrap());
+    let mut tcs = open();
+    let (runtime, storage) = shared();
+    let pool = runtime.handle().clone();
+    let mut out = vec![];
+    for op in case.arg(2).list() {
+        let r = if op.is_sym("restart") {
+            drop(tcs);
+            tcs = open();
+            Sx::L(vec![])
+        } else {
+            let lc = op.arg(2);
+            let local = if lc.list().len() == 4 {
+                Local::Exit(
+                    dec_i32(lc.arg(1), lc.arg(2)),
+                    lc.arg(3).list().iter().map(|p| p.u64()).collect(),
+                )
+            } else {
+                Local::SpawnErr
+            };
+            let s = Script {
+                gen: true,
+                dist: true,
+                prep: None,
+                put: None,
+                alloc: Alloc::Ok(op.arg(1).as_bool()),
+                submit: Submit::Ok,
+                run: Run::Complete(0, vec![(0, W::Ok)]),
+                rewrite: None,
+                local,
+                pre: vec![],
+            };
+            let creator = new_creator();
+            let ran = Arc::new(AtomicBool::new(false));
+            let files = match &s.local {
+                Local::Exit(_, ws) => ws.iter().map(|p| opath(&dir, *p)).collect(),
+                Local::SpawnErr => vec![],
+            };
+            queue_local(&creator, &s, &dir, ran.clone(), files);
+            let client: Arc<dyn dist::Client> = Arc::new(ScriptClient {
+                s: s.clone(),
+                dir: dir.clone(),
+                requested_outputs: false,
+                variant: 0,
+                sent: Mutex::new(None),
+                toolchains: Some((tcs.clone(), size)),
+            });
+            let service = SccacheService::<Creator>::mock_with_dist_client(
+                client.clone(),
+                storage.clone(),
+                pool.clone(),
+            );
+            let compilation = Box::new(RawCompilation {
+                s: s.clone(),
+                dir: dir.clone(),
+                dist_cmd: true,
+            });
+            let res = catch(|| {
+                runtime.block_on(comp::verif_dist_or_local_compile(
+                    &service,
+                    Some(client.clone()),
+                    creator.clone(),
+                    dir.clone(),
+                    compilation,
+                    "weak".into(),
+                    "o0".into(),
+                ))
+            });
+            let (o, dt, st, src) = match res {
+                Err(_) => ("panic".to_string(), "none", Sx::L(vec![]), "none"),
+                Ok(Ok((_, dt, o))) => (
+                    "ok".to_string(),
+                    dt_sym(&dt),
+                    enc_st(o.status),
+                    src_of(&o.stdout, &o.stderr),
+                ),
+                Ok(Err(e)) => {
+                    let (k, st, src) = classify_err(&e);
+                    (k, "none", st, src)
+                }
+            };
+            Sx::L(vec![
+                Sx::sym(&o),
+                Sx::sym(dt),
+                st,
+                listing(&dir, &oname),
+                Sx::bool(ran.load(Ordering::SeqCst)),
+                Sx::sym(src),
+            ])
+        };
+        let weak = std::fs::read(tcdir.join("weak_map.json"))
+            .map(|b| String::from_utf8_lossy(&b).trim() != "{}")
+            .unwrap_or(false);
+        let arch = std::fs::read_dir(tcdir.join("tc"))
+            .map(|rd| {
+                fn any_file(rd: std::fs::ReadDir) -> bool {
+                    rd.flatten().any(|e| {
+                        let p = e.path();
+                        if p.is_dir() {
+                            std::fs::read_dir(&p).map(any_file).unwrap_or(false)
+                        } else {
+                            true
+                        }
+                    })
+                }
+                any_file(rd)
+            })
+            .unwrap_or(false);
+        out.push(Sx::L(vec![Sx::L(vec![Sx::bool(weak), Sx::bool(arch)]), r]));
+    }
+    Sx::L(out)
 }
 
 // ------------------------------------------------------------------ leg args
@@ -970,9 +1235,10 @@ fn main() {
         "status" => vh::run_lines(run_status),
         "fallback" => vh::run_lines(run_fallback),
         "request" => vh::run_lines(run_request),
+        "toolchain" => vh::run_lines(run_toolchain),
         "args" => vh::run_lines(run_args),
         _ => {
-            eprintln!("usage: c13 status|fallback|request|args");
+            eprintln!("usage: c13 status|fallback|request|toolchain|args");
             std::process::exit(2);
         }
     }
